@@ -519,4 +519,6 @@ def run(cx, tier='quick'):
     rep.floor('SEL+DUP', 4)
     rep.assumptions += ['type equality is educe\'s documented notion: equality of token strings']
     rep.not_decided += ['type equality beyond token-string equality']
+    from .binders import check_binder_injectivity
+    check_binder_injectivity(cx, rep, ['::into::'])
     return rep
